@@ -81,7 +81,8 @@ def _with_common(d, meta=True):
         base['meta'] = include_meta()
     base['num'] = NUMS
     # 'assign': constructed from other values, then every field assigned
-    base['build'] = st.sampled_from(['direct', 'direct', 'direct', 'assign'])
+    base['build'] = st.sampled_from(['direct', 'direct', 'direct', 'direct',
+                                     'assign', 'assign', 'reuse'])
     return st.fixed_dictionaries(base)
 
 
